@@ -257,7 +257,7 @@ fn cache_vs_fresh() {
 /// a cached expression evaluated a second time on a changed store behaves like a fresh compilation (kinds of nodes survive get_copy)
 fn cache_init_assign() {
     let k = vnd_conc(vnd_range(0, 5, 1), 5);
-    let text = match k { 5 => "v ?= [1, 2, 3]", 0 => "m[key] ?= 1", 1 => "n ?= b", 2 => "!(b == 3) | (b < 4)", 3 => "[b, 1][0] + {'x': b}.x", _ => "b = b + 1" };
+    let text = match k { 5 => "v ?= [1, 2, 3]; v[0]", 0 => "m[key] ?= 1", 1 => "n ?= b", 2 => "!(b == 3) | (b < 4)", 3 => "[b, 1][0] + {'x': b}.x", _ => "b = b + 1" };
     let run = |cached: bool| -> (bool, bool, String) {
         let g = create_global_data_arc();
         { let mut gd = g.lock().unwrap();
